@@ -231,13 +231,16 @@ func (f *PostProcessorRegistrationDelegate) ResolveAfterInstantiation(meta *comp
 
 func (f *PostProcessorRegistrationDelegate) GetEarlyBeanReference(name string, m any) (any, error) {
 	var exposedComponent = m
-	var err error
 	if f.hasInstantiationAwareComponentPostProcessor {
 		for _, processor := range f.componentPostProcessors {
 			if ibp, ok := processor.(container.SmartInstantiationAwareBeanPostProcessor); ok {
-				exposedComponent, err = ibp.GetEarlyBeanReference(exposedComponent, name)
+				current, err := ibp.GetEarlyBeanReference(exposedComponent, name)
 				if err != nil {
 					return nil, errors.Wrapf(err, "apply %T.GetEarlyBeanReference() for component '%s'", ibp, name)
+				}
+				//like before/after initialization: nil means "nothing to substitute" (it used to end in a reflect panic)
+				if current != nil {
+					exposedComponent = current
 				}
 			}
 		}
